@@ -122,6 +122,7 @@ func hookCase(r *ev.Run, lc *ev.Local, c clock) {
 // ---- end to end in virtual time: real driver, blocking mock search
 
 type mock struct {
+	oddPly  bool // the search is inside the tree at an odd ply (side to move flipped) while it waits
 	mu      sync.Mutex
 	opts    search.Options
 	started time.Time
@@ -140,8 +141,16 @@ func (m *mock) Go(b *board.Board, opts ...search.Option) (chess.Score, move.Move
 	m.opts = o
 	m.started = time.Now()
 	m.mu.Unlock()
+	// a real search makes and unmakes moves on the driver's board in place
+	var rv board.Reverse
+	if m.oddPly {
+		rv = b.MakeNullMove()
+	}
 	m.entered <- struct{}{}
 	<-o.Stop
+	if m.oddPly {
+		b.UndoNullMove(rv)
+	}
 	m.mu.Lock()
 	m.stopped = time.Now()
 	m.mu.Unlock()
@@ -155,11 +164,11 @@ type e2eResult struct {
 	bestmove bool
 }
 
-func e2e(t *testing.T, c clock, ponder bool) (res e2eResult) {
+func e2e(t *testing.T, c clock, ponder bool, oddPly bool, pings int) (res e2eResult) {
 	synctest.Test(t, func(t *testing.T) {
 		pr, pw := io.Pipe()
 		or, ow := io.Pipe()
-		m := &mock{entered: make(chan struct{}, 1)}
+		m := &mock{entered: make(chan struct{}, 1), oddPly: oddPly}
 		d := uci.NewDriver(uci.WithInput(pr), uci.WithOutput(ow), uci.WithError(io.Discard), uci.WithSearch(m))
 		done := make(chan struct{})
 		go func() { d.Run(); ow.Close(); close(done) }()
@@ -210,6 +219,17 @@ func e2e(t *testing.T, c clock, ponder bool) (res e2eResult) {
 			ref = m.started
 			m.mu.Unlock()
 		}
+		// a GUI may ping while the timed search runs; that must not move the deadline
+		for i := 0; i < pings; i++ {
+			time.Sleep(7 * time.Millisecond)
+			m.mu.Lock()
+			over := !m.stopped.IsZero()
+			m.mu.Unlock()
+			if over {
+				break
+			}
+			send("isready")
+		}
 		// the blocking search only returns when Stop closes = when the armed deadline fires
 		for l := range lines {
 			if strings.HasPrefix(l, "bestmove") {
@@ -230,12 +250,18 @@ func e2e(t *testing.T, c clock, ponder bool) (res e2eResult) {
 	return
 }
 
-func e2eCase(t *testing.T, r *ev.Run, c clock, ponder bool) {
-	res := e2e(t, c, ponder)
+func e2eCase(t *testing.T, r *ev.Run, c clock, ponder bool, oddPly bool, pings int) {
+	res := e2e(t, c, ponder, oddPly, pings)
 	r.Eval(1)
 	kind := "e2e"
 	if ponder {
 		kind = "e2e-ponder"
+	}
+	if oddPly {
+		kind += "-search-at-odd-ply"
+	}
+	if pings > 0 {
+		kind += fmt.Sprintf("-%d-isready-pings", pings)
 	}
 	if !res.bestmove {
 		r.Violation("C14:no-bestmove-after-deadline", witness{Kind: kind, Clock: c, Ponder: ponder}, "the blocking search was never stopped / no bestmove")
@@ -311,7 +337,11 @@ func TestCheck(t *testing.T) {
 		timed, s, h := limits(w.Clock)
 		fmt.Printf("replay %+v: timed=%v soft=%d hard=%d\n", w.Clock, timed, s, h)
 		if strings.HasPrefix(w.Kind, "e2e") {
-			e2eCase(t, r, w.Clock, w.Ponder)
+			pings := 0
+			if i := strings.Index(w.Kind, "-isready-pings"); i > 0 {
+				fmt.Sscanf(w.Kind[strings.LastIndex(w.Kind[:i], "-")+1:i], "%d", &pings)
+			}
+			e2eCase(t, r, w.Clock, w.Ponder, strings.Contains(w.Kind, "odd-ply"), pings)
 		} else {
 			hookCase(r, ev.NewLocal(), w.Clock)
 		}
@@ -413,7 +443,18 @@ func TestCheck(t *testing.T) {
 			// keep virtual deadlines printable; huge values are fine for virtual time
 		}
 		ponder := i%5 == 4
-		e2eCase(t, r, c, ponder)
+		oddPly := i%3 == 1
+		pings := 0
+		if i%4 == 2 {
+			pings = 1 + rng.IntN(12)
+		}
+		e2eCase(t, r, c, ponder, oddPly, pings)
+		if oddPly {
+			r.Count("e2e_search_at_odd_ply", 1)
+		}
+		if pings > 0 {
+			r.Count("e2e_with_isready_pings", 1)
+		}
 		r.Count("e2e_bubbles", 1)
 		if ponder {
 			r.Count("e2e_ponderhit_bubbles", 1)
@@ -426,10 +467,10 @@ func TestCheck(t *testing.T) {
 		}
 		r.Distinct(ev.HashStr(fmt.Sprintf("e2e%+v%v", c, ponder)))
 		if i%300 == 0 {
-			res := e2e(t, c, ponder)
+			res := e2e(t, c, ponder, oddPly, pings)
 			r.Sample(map[string]any{"kind": "e2e", "clock": c, "ponder": ponder, "observed_soft": res.soft, "observed_deadline_ms": res.deadline.Milliseconds()})
 		}
 	}
 	r.Finish("hook_cases", "hook_cases_between_margin_and_twice_margin", "hook_cases_at_or_below_margin", "opponent_clock_variants", "movetime_cases",
-		"e2e_bubbles", "e2e_ponderhit_bubbles", "e2e_black_to_move", "e2e_movetime", "boundary_remaining_values")
+		"e2e_bubbles", "e2e_ponderhit_bubbles", "e2e_black_to_move", "e2e_movetime", "boundary_remaining_values", "e2e_search_at_odd_ply", "e2e_with_isready_pings")
 }
